@@ -305,9 +305,6 @@ func (s *optSuffixArrayParser) computeEdges() {
 			maxLen = n
 		}
 	}
-	if int(maxLen) > s.MaxMatchLen {
-		maxLen = int32(s.MaxMatchLen)
-	}
 	if int(maxLen) < s.MinMatchLen {
 		// No repeat reaches the minimum match length, so there are no
 		// edges. suffix.Segments would not report anything either, but it
@@ -392,7 +389,7 @@ func (s *optSuffixArrayParser) shortestPath(p []edge, n int) []edge {
 		d[i] = opt{m: 1, o: 0, c: s.cost(uint32(i), 0)}
 	}
 
-	lit := s.cost(2, 0)
+	lit := s.cost(1, 0)
 	for i, q := range edges {
 		if i > 0 {
 			if c := d[i-1].c + lit; c < d[i].c {
